@@ -523,6 +523,18 @@ def run_history(kind, nmsgs, consumers, hist, cancel_at=None, deviations=None, c
                                            f"{op} cancelled at its iteration {cancel_at}: broker state is neither the "
                                            f"state before the call ({pre_viol[0][1]}) nor after it ({post_viol[0][1]})")],
                                     key=None, enabled=[], iters=iters, status=status)
+                    if op[0] in ("ack", "nack", "reject", "requeue"):
+                        # the call had no effect: the client still holds the message, so repeating the call
+                        # must work (client-side state such as a delivery tag must not have been dropped)
+                        again = []
+                        r.viol = again
+                        st2, res2, _ = r.step(op)
+                        r.check(op, st2, res2, snap)
+                        if again:
+                            return dict(viol=[(f"cancelled {op[0]}: cannot be repeated",
+                                               f"{op} cancelled at its iteration {cancel_at} left the message held, but "
+                                               f"repeating the call does not settle it: {again[0][1]}")],
+                                        key=None, enabled=[], iters=iters, status=status)
                 return dict(viol=[], key=None, enabled=[], iters=iters, status=status)
             status, res, iters = r.step(op)
             if i < last:
